@@ -180,6 +180,9 @@ where
     }
     fn key(&self) -> Option<Vec<u8>> {
         let sz = std::mem::size_of::<I>();
+        if std::env::var_os("VF_C05_FORCE_OBSERVATIONAL_KEY").is_some() {
+            return None; // self-test of the fallback path
+        }
         if sz == 2 * std::mem::size_of::<usize>() && std::mem::align_of::<I>() == std::mem::align_of::<usize>() {
             let mut v = vec![0u8; sz];
             // SAFETY: I is exactly two usize wide with usize alignment (checked above), so it has
@@ -453,12 +456,17 @@ impl IterModel {
             match l.real.key() {
                 Some(k) => key.push(k),
                 None => {
+                    // the iterator is not the two-usize struct any more (refactored representation): identify the
+                    // state by what is observable — the remaining items, len() and the reference cursors. Merging by
+                    // observation can only lose distinctions (never raise an alarm); the search still runs to fixpoint.
                     bytes = false;
+                    let obs = format!("{:?}|{:?}", guard(|| l.real.drain_fwd(self.n() + 3)), guard(|| l.real.len()));
+                    key.push(obs.into_bytes());
                 }
             }
         }
-        if !bytes || bad {
-            // no byte key: the history itself identifies the state (no deduplication)
+        if bad {
+            // violating states are terminal and kept apart
             key = vec![format!("{:?}", hist).into_bytes()];
         }
         self.col.lock().unwrap().byte_keys = bytes;
@@ -596,8 +604,7 @@ pub fn explore(ctx: &mut Ctx, mk: fn() -> Box<dyn DynIter>) {
     for (max_live, ns) in passes {
         let model = IterModel { mk, items: items.clone(), ns, max_live, depth_cap: None, col: col.clone() };
         // probe whether byte keys are available; otherwise bound the depth (history is the state)
-        let probe = mk().key().is_some();
-        let model = if probe { model } else { IterModel { depth_cap: Some(if ctx.thorough() { 4 } else { 3 }), ..model } };
+        // (no depth cap: with byte keys or with observational keys the reachable key set is finite)
         let checker = model.checker().threads(1).spawn_bfs().join();
         total_states += checker.unique_state_count() as u64;
         max_depth = max_depth.max(checker.max_depth());
@@ -614,7 +621,7 @@ pub fn explore(ctx: &mut Ctx, mk: fn() -> Box<dyn DynIter>) {
     ctx.count("max_depth", max_depth as u64);
     ctx.count("bfs_states", total_states);
     if !c.byte_keys {
-        ctx.count("fallback_history_state", 1);
+        ctx.count("fallback_observational_state_key", 1);
     }
     for o in &c.outcomes {
         ctx.outcome(o);
